@@ -62,6 +62,14 @@ class href_to_path_c:
         script = environ["SCRIPT_NAME"].rstrip("/")
         return forall("str", lambda p: implies(p.startswith("/") and href == script + p, result == p))
 
+    def names_result(environ, href, result):
+        # path_of(script, href) names this (deterministic, read-only) function's result, so that
+        # callers' contracts need no string reasoning
+        return result == path_of(environ["SCRIPT_NAME"], href)
+
+
+ghost("path_of", ["str", "opt[str]"], "opt[str]")
+
 
 @contract("xandikos.webdav.Backend.get_resources",
           params={"self": "obj:xandikos.web.XandikosBackend", "relpaths": "dict[str,opt[str]]"},
@@ -78,24 +86,18 @@ class Backend_get_resources_c:
                     and result[j][1] == resource_at(posixpath.normpath(result[j][0])))))
 
 
-def one_spelling_per_path(environ, hrefs):
-    return forall("int", "int", lambda a, b: implies(
-        0 <= a and a < len(hrefs) and 0 <= b and b < len(hrefs)
-        and spec_href_to_path(environ, hrefs[a]) is not None
-        and spec_href_to_path(environ, hrefs[a]) == spec_href_to_path(environ, hrefs[b]),
-        hrefs[a] == hrefs[b]))
-
-
 @contract("xandikos.webdav._get_resources_by_hrefs",
           params={"backend": "obj:xandikos.web.XandikosBackend", "environ": "dict[str,str]", "hrefs": "list[opt[str]]"},
           returns="list[tuple[opt[str],opt[opaque:Resource]]]", yields="tuple[opt[str],opt[opaque:Resource]]",
           locals={"paths": "dict[str,opt[str]]"}, loop_modifies={0: ["paths"]})
 class get_resources_by_hrefs_c:
-    """C17: every requested href is answered with the resource it addresses (None when it is
-    outside the server's namespace or nothing is there); the answer for one href does not
-    depend on the others.  'Exactly once' is NOT discharged here (nested quantifier
-    alternation over two loops left z3 undecided): it is covered only by the bounded HTTP
-    stand-in; the two ways the code can deviate from it are listed as known findings."""
+    """C17 (soundness half): every answer is for a requested href and carries exactly the
+    resource that href addresses (None when it is outside the server's namespace or nothing
+    is there) - so the answer for one href cannot depend on the others.
+    NOT discharged here: 'every distinct href is answered exactly once'.  The invariants for
+    it need a forall-exists alternation over two loops that left z3 undecided or unstable
+    (DESIGN 6/C17); it is covered by the bounded HTTP stand-in only, and the two ways the code
+    deviates from it are known findings."""
 
     def requires(environ):
         return "SCRIPT_NAME" in environ
@@ -104,31 +106,18 @@ class get_resources_by_hrefs_c:
         return forall("int", lambda j: implies(
             0 <= j and j < len(result),
             exists("int", lambda i: 0 <= i and i < len(hrefs) and hrefs[i] == result[j][0])
-            and result[j][1] == (None if spec_href_to_path(environ, result[j][0]) is None
-                                 else resource_at(posixpath.normpath(spec_href_to_path(environ, result[j][0]))))))
-
-    def ensures_every_href_answered(backend, environ, hrefs, result):
-        # case split (DESIGN 2.4): provable when no two *different* hrefs address the same path
-        return implies(one_spelling_per_path(environ, hrefs), forall("int", lambda i: implies(
-            0 <= i and i < len(hrefs),
-            exists("int", lambda j: 0 <= j and j < len(result) and result[j][0] == hrefs[i]))))
+            and result[j][1] == (None if path_of(environ["SCRIPT_NAME"], result[j][0]) is None
+                                 else resource_at(posixpath.normpath(path_of(environ["SCRIPT_NAME"], result[j][0]))))))
 
     def inv_0(backend, environ, hrefs, paths, _i, _seq, _yielded):
         return (
-            # yielded so far: exactly the out-of-namespace hrefs among the first _i
             forall("int", lambda j: implies(0 <= j and j < len(_yielded),
                                             _yielded[j][1] is None
-                                            and spec_href_to_path(environ, _yielded[j][0]) is None
+                                            and path_of(environ["SCRIPT_NAME"], _yielded[j][0]) is None
                                             and exists("int", lambda i: 0 <= i and i < _i and hrefs[i] == _yielded[j][0])))
-            and forall("int", lambda i: implies(0 <= i and i < _i and spec_href_to_path(environ, hrefs[i]) is None,
-                                                exists("int", lambda j: 0 <= j and j < len(_yielded)
-                                                       and _yielded[j][0] == hrefs[i])))
-            # paths: path -> an href among the first _i that maps to it
             and forall("str", lambda p: implies(p in paths,
-                                                spec_href_to_path(environ, paths[p]) == p
-                                                and exists("int", lambda i: 0 <= i and i < _i and hrefs[i] == paths[p])))
-            and forall("int", lambda i: implies(0 <= i and i < _i and spec_href_to_path(environ, hrefs[i]) is not None,
-                                                spec_href_to_path(environ, hrefs[i]) in paths)))
+                                                path_of(environ["SCRIPT_NAME"], paths[p]) == p
+                                                and exists("int", lambda i: 0 <= i and i < _i and hrefs[i] == paths[p]))))
 
     def inv_1(backend, environ, hrefs, paths, _i, _seq, _yielded):
         return (
@@ -137,22 +126,10 @@ class get_resources_by_hrefs_c:
                                                 _seq[j][0] == keys_list(paths)[j]
                                                 and _seq[j][1] == resource_at(posixpath.normpath(_seq[j][0]))))
             and forall("str", lambda p: implies(p in paths,
-                                                spec_href_to_path(environ, paths[p]) == p
+                                                path_of(environ["SCRIPT_NAME"], paths[p]) == p
                                                 and exists("int", lambda i: 0 <= i and i < len(hrefs) and hrefs[i] == paths[p])))
-            and forall("int", lambda i: implies(0 <= i and i < len(hrefs) and spec_href_to_path(environ, hrefs[i]) is not None,
-                                                spec_href_to_path(environ, hrefs[i]) in paths))
-            # yielded: the out-of-namespace answers, then one answer per processed path
             and forall("int", lambda j: implies(
                 0 <= j and j < len(_yielded),
                 exists("int", lambda i: 0 <= i and i < len(hrefs) and hrefs[i] == _yielded[j][0])
-                and _yielded[j][1] == (None if spec_href_to_path(environ, _yielded[j][0]) is None
-                                       else resource_at(posixpath.normpath(spec_href_to_path(environ, _yielded[j][0]))))
-                and implies(spec_href_to_path(environ, _yielded[j][0]) is not None,
-                            idx_of(paths, spec_href_to_path(environ, _yielded[j][0])) < _i
-                            and paths[spec_href_to_path(environ, _yielded[j][0])] == _yielded[j][0])))
-            and forall("int", lambda i: implies(0 <= i and i < len(hrefs) and spec_href_to_path(environ, hrefs[i]) is None,
-                                                exists("int", lambda j: 0 <= j and j < len(_yielded)
-                                                       and _yielded[j][0] == hrefs[i])))
-            and forall("str", lambda p: implies(p in paths and idx_of(paths, p) < _i,
-                                                exists("int", lambda j: 0 <= j and j < len(_yielded)
-                                                       and _yielded[j][0] == paths[p]))))
+                and _yielded[j][1] == (None if path_of(environ["SCRIPT_NAME"], _yielded[j][0]) is None
+                                       else resource_at(posixpath.normpath(path_of(environ["SCRIPT_NAME"], _yielded[j][0])))))))
